@@ -298,6 +298,15 @@ def fen_classes(fx, width_ok):
             e = b.expr(t["args"][1], expand_named=True, at=bb) if len(t["args"]) > 1 else None
             arrs = [x for x in walk(e) if isinstance(x, tuple) and x and x[0] == "agg" and x[1] == "array"] if e is not None and find_calls(e, "Iterator>::next") else []
             exts += len(arrs[0][2]) if len(arrs) == 1 else 1
+        if exts == 0:
+            # `[line1, .., line8].into_iter().flat_map(|line| line.0).collect()`: one append per array element
+            for bb, t in b.calls():
+                cn = norm(callee_name(t) or "")
+                if cn.endswith("Iterator>::flat_map") or cn.endswith("Iterator>::flatten") or cn.endswith("Iterator::flat_map"):
+                    e = b.expr(t["args"][0], expand_named=True, at=bb)
+                    arrs = [x for x in walk(e) if isinstance(x, tuple) and x and x[0] == "agg" and x[1] == "array"]
+                    if len(arrs) == 1 and any(norm(callee_name(t2) or "").endswith("Iterator>::collect") or norm(callee_name(t2) or "").endswith("::collect") for _, t2 in b.calls()):
+                        exts = len(arrs[0][2])
         rank_n = fx.const("square::Rank::N").get("int")
         return width_ok and len(refs) == rank_n and exts == rank_n
 
